@@ -23,6 +23,11 @@ CHECKS = {
     note='astropy FITS writing, SkyCoord formatting, healpy.boundaries and pickle are cut in the symbolic runs (arguments recorded) and run for real only in the replay oracle; polygon vertices vs HEALPix corners and .mim fidelity are not decided.',
     technique='symbolic execution of the real Python source on guarded finite sets (z3), z3 decides; I/O libraries cut with argument recorders; models replayed through real astropy/healpy',
     design='4/C12'),
+ 'C04': dict(
+    text='The real fitting.jacobian runs on symbolic parameters and a symbolic pixel with Boolean-symbolic vary flags; each returned row is compared (sympy-normalised residual, z3 verdict) with the chain-rule derivative of the term produced by executing the real elliptical_gaussian, theta in degrees (K=pi/180 symbolic), row count and order checked on every path. lmfit_jacobian is decided as (J/errs).B transposed on symbolic matrices; covar_errors with inv() stubbed by an arbitrary symbolic matrix: the matrix inverted equals J^T J (J^T C^-1 J) and each stderr^2 equals the parameter\'s own global diagonal entry. 1-3 components (4 thorough).',
+    note='floats as reals; Bmatrix/LAPACK, the optimiser and the hessian are outside; vary subsets: all 64 for one component, one Boolean-symbolic component x fixed patterns for the others when n>=2 (all 4096 for n=2 in thorough); sympy normaliser trusted, models replayed with central differences / explicit inverse on the real code.',
+    technique='symbolic execution of the real Python source on z3 terms (units-aware trig algebra, exp atoms), automatic differentiation of the executed model term as oracle, sympy normalisation then z3 decides',
+    design='4/C04'),
 }
 NA = {}
 ALL = ['C%02d' % i for i in range(1, 21)]
